@@ -14,8 +14,16 @@ def _run_shard(args):
     mod = importlib.import_module(modname)
     fam = getattr(mod, famname)
     out = []
-    for line, exp, tag in fam(seed, shard, nshards, n):
-        out.append((line, exp, tag))
+    try:
+        for line, exp, tag in fam(seed, shard, nshards, n):
+            out.append((line, exp, tag))
+    except Exception as e:  # the implementation raised where the family expected a value
+        import traceback
+
+        tb = traceback.extract_tb(e.__traceback__)
+        where = '; '.join(f'{os.path.basename(f.filename)}:{f.lineno} {f.name}' for f in tb[-4:])
+        msg = f'{type(e).__name__}: {e}'.replace('\n', ' ')[:300]
+        out.append((f'crash {famname} shard={shard}', f'IMPLEMENTATION-RAISED {msg} @ {where}', f'crash-{famname}'))
     return out
 
 
